@@ -45,7 +45,7 @@ var (
 	// -long: a second protocol error right after the first hold-down, probed 61 s later
 	// (the second hold-down lasts 120 s); -plug: the plugin's update handler returned a
 	// NOTIFICATION
-	c13States = []string{"idle", "in-opensent", "in-openconfirm", "est-in", "est-out", "out-opensent", "helddown", "deleted", "helddown-hdr", "helddown-fsm", "helddown-again", "helddown-7", "helddown-long", "helddown-plug"}
+	c13States = []string{"idle", "in-opensent", "in-openconfirm", "est-in", "est-out", "out-opensent", "helddown", "deleted", "helddown-hdr", "helddown-fsm", "helddown-again", "helddown-7", "helddown-long", "helddown-plug", "out-openconfirm"}
 )
 
 // admit is the reference predicate (DESIGN.md Appendix A.7).
@@ -58,7 +58,7 @@ func admit(src, dst string, peers []c13Peer) bool {
 			return false
 		}
 		switch p.State {
-		case "idle", "out-opensent":
+		case "idle", "out-opensent", "out-openconfirm": // (an outbound connection that is not Established does not close the door)
 			return true
 		}
 		return false // inbound in progress, Established, held down, deleted
@@ -182,7 +182,7 @@ func c13World(t *testing.T, p c13Params) rt.Result {
 				continue
 			}
 			ps := mkSpec(pp)
-			if pp.State == "est-out" || pp.State == "out-opensent" {
+			if pp.State == "est-out" || pp.State == "out-opensent" || pp.State == "out-openconfirm" {
 				amu.Lock()
 				acceptFor[ps.Addr] = true
 				amu.Unlock()
@@ -247,7 +247,7 @@ func c13World(t *testing.T, p c13Params) rt.Result {
 					}
 					live[pp.Addr] = rc
 				}
-			case "est-out", "out-opensent":
+			case "est-out", "out-opensent", "out-openconfirm":
 				var rc *hz.RConn
 				for _, c := range w.OutConns() {
 					if c.PeerIP == ps.Addr {
@@ -267,6 +267,14 @@ func c13World(t *testing.T, p c13Params) rt.Result {
 					return
 				}
 				w.Settle()
+				if pp.State == "out-openconfirm" {
+					rc.SendOpen(rc.StdOpen(ps.RemoteAS, 90, remoteIDu))
+					w.Settle()
+					if ms := rc.Msgs(); len(ms) != 2 || ms[1].Type != wire.TypeKeepalive {
+						w.Violate("setup: OPEN exchange on the outbound connection of %s: [%s]", pp.Addr, typesOf(ms))
+						return
+					}
+				}
 				if pp.State == "est-out" {
 					if !rc.Handshake(ps.RemoteAS, 90, remoteIDu) {
 						w.Violate("setup: outbound handshake with %s failed", pp.Addr)
@@ -491,7 +499,7 @@ func TestC13(t *testing.T) {
 				pp.State = c13States[i%len(c13States)]
 				pp.Local = locals[(i/len(c13States))%3]
 			}
-			if pp.State == "est-out" || pp.State == "out-opensent" {
+			if pp.State == "est-out" || pp.State == "out-opensent" || pp.State == "out-openconfirm" {
 				pp.Passive = false
 			}
 			p.Peers = append(p.Peers, pp)
